@@ -74,6 +74,13 @@ def handle(req):
         S.models.pop(req["model"], None)
         get_model(req["model"])
         return out
+    if op == "ngauss":
+        # somebody (sascomp -ngauss, a convergence study) derives a variant of the model with another quadrature size
+        from sasmodels import generate
+        from sasmodels.core import load_model_info
+        info = load_model_info(req["model"])
+        generate.set_integration_size(info, req["n"])
+        return out
     if op in ("call_kernel", "call_Fq"):
         k = get_kernel(req)
         pars = dict(req["pars"])
@@ -344,6 +351,8 @@ def gen_history(rng, infos, length):
         if r < 0.08:
             reqs.append(dict(op="release", model=model, q=q))
         elif r < 0.13:
+            if rng.random() < 0.3 and model in ("cylinder", "ellipsoid", "parallelepiped"):
+                reqs.append(dict(op="ngauss", model=model, n=rng.choice([20, 150])))
             reqs.append(dict(op="reload", model=model))
         elif r < 0.18:
             reqs.append(dict(op="make_kernel", model=model, q=q))
@@ -392,7 +401,7 @@ def gen_history(rng, infos, length):
                     reqs.append(e)
         # repeat an earlier request now and then: the same request after other work
         if reqs and rng.random() < 0.25:
-            evals = [x for x in reqs if x["op"] not in ("release", "reload", "make_kernel")]
+            evals = [x for x in reqs if x["op"] not in ("release", "reload", "make_kernel", "ngauss")]
             if evals:
                 reqs.append(dict(rng.choice(evals)))
     return reqs
@@ -439,6 +448,11 @@ def main(run):
         h = [dict(op="sasview", model=mname, q=qq, cutoff=1e-5, settings=st) for qq in order]
         h.insert(2, dict(op="sasview_clone", model=mname, q=order[1], cutoff=1e-5, settings=st))
         histories.insert(1, h)
+    # corpus: a long thin cylinder at high q (sensitive to the size of the orientation quadrature), a variant of the
+    # model with 150 Gauss points is derived, the model is loaded again by name and evaluated
+    cyl_ = dict(op="call_kernel", model="cylinder", q=[[0.1, 0.2, 0.3]], cutoff=0.0, pars={"radius": 20.0, "length": 3000.0})
+    histories.insert(1, [dict(cyl_), dict(op="ngauss", model="cylinder", n=150), dict(op="reload", model="cylinder"), dict(cyl_),
+                         dict(op="ngauss", model="cylinder", n=20), dict(op="reload", model="cylinder"), dict(cyl_)])
     # corpus: amplitude requests on one kernel with the effective-radius mode going 2 -> 0 -> 1 -> 0
     histories.insert(1, [dict(op="call_Fq", model="core_shell_sphere", q=[[0.01, 0.05, 0.2]], cutoff=0.0,
                               pars={"radius": 40.0, "thickness": 12.0, "radius_pd": 0.1, "radius_pd_n": 5, "radius_effective_mode": m_})
@@ -448,7 +462,7 @@ def main(run):
     todo = []
     for h in histories:
         for req in h:
-            if req["op"] in ("release", "reload", "make_kernel"):
+            if req["op"] in ("release", "reload", "make_kernel", "ngauss"):
                 continue
             key = json.dumps(req, sort_keys=True)
             if key not in oracle:
@@ -483,7 +497,7 @@ def main(run):
     for h, outs in zip(histories, played):
         for i, (req, got) in enumerate(zip(h, outs)):
             stats["ops"][req["op"]] = stats["ops"].get(req["op"], 0) + 1
-            if req["op"] in ("release", "reload", "make_kernel"):
+            if req["op"] in ("release", "reload", "make_kernel", "ngauss"):
                 if "error" in got:
                     run.add(Finding("C11:error:%s" % req["op"], "history step %d %s raised %s" % (i, req["op"], got["error"]), dict(history=h[:i + 1])))
                 continue
